@@ -37,6 +37,7 @@ type logical struct {
 	Cookie       string
 	DupCookie    bool
 	QuotedCookie bool
+	OddCookie    bool
 	// ContentType as sent (informational)
 	ContentType string
 	BodyKind    string
@@ -101,10 +102,10 @@ func genLogical(t *rapid.T) logical {
 
 	l.Rest = strings.Join(restDec, "/")
 	l.LR = vkit.LogicalRequest{
-		Method:   rapid.SampledFrom([]string{"GET", "POST", "PUT", "DELETE", "GET", "POST", "PROPFIND", "PURGE", "QUERY"}).Draw(t, "method"),
-		Scheme:   rapid.SampledFrom([]string{"http", "https"}).Draw(t, "scheme"),
-		Host:     rapid.SampledFrom([]string{"svc.example.com", "api.example.com:8443"}).Draw(t, "host"),
-		RawPath:  "/svc/" + idRaw + "/" + strings.Join(restRaw, "/"),
+		Method:  rapid.SampledFrom([]string{"GET", "POST", "PUT", "DELETE", "GET", "POST", "PROPFIND", "PURGE", "QUERY"}).Draw(t, "method"),
+		Scheme:  rapid.SampledFrom([]string{"http", "https"}).Draw(t, "scheme"),
+		Host:    rapid.SampledFrom([]string{"svc.example.com", "api.example.com:8443"}).Draw(t, "host"),
+		RawPath: "/svc/" + idRaw + "/" + strings.Join(restRaw, "/"),
 		RawQuery: rapid.SampledFrom([]string{"", "a=1", "a=1&b=two&a=3", "q=x%20y",
 			// (a question mark and a slash are ordinary characters of a query, RFC 3986, section 3.4)
 			"return_to=https://app.example.com/items?tab=2&lang=en", "q=what?&page=2", "a=1;b=2", "a=%26&b=%3D%3F", "flag", "a=&=b&&"}).Draw(t, "query"),
@@ -138,6 +139,22 @@ func genLogical(t *rapid.T) logical {
 		case 1:
 			value = "sid=" + l.Cookie + "; sid=; other=2"
 			l.DupCookie = true
+		}
+
+		// neighbours which are no well-formed cookies: the ones which are, are read the same way by every entry point
+		switch rapid.IntRange(0, 9).Draw(t, "oddCookieNeighbour") {
+		case 0:
+			value += ";"
+			l.OddCookie = true
+		case 1:
+			value = "flag; " + value
+			l.OddCookie = true
+		case 2:
+			value = "bad name=1; " + value
+			l.OddCookie = true
+		case 3:
+			value = "other=a\"b; " + value + "; =nameless"
+			l.OddCookie = true
 		}
 
 		l.LR.Headers = append(l.LR.Headers, vkit.HeaderKV{Name: "Cookie", Value: value})
@@ -513,6 +530,7 @@ func TestEntryPointsAgree(t *testing.T) {
 		vkit.S.LabelIf(len(l.HdrValues) >= 2, "multi_valued_request_header")
 		vkit.S.LabelIf(l.DupCookie, "duplicate_cookie_name")
 		vkit.S.LabelIf(l.QuotedCookie, "quoted_cookie_value")
+		vkit.S.LabelIf(l.OddCookie, "cookie_beside_malformed_elements")
 		vkit.S.LabelIf(strings.Contains(l.LR.RawPath, "%"), "encoded_path")
 		vkit.S.Label(fmt.Sprintf("decision_positive=%v", obs[vkit.EntryDecision].Positive))
 
